@@ -15,14 +15,18 @@ D1 = {"C02:missing-alternative", "C02:missing-tree", "C02:fewer-trees-than-refer
 D2 = {"C03:duplicate-alternative", "C03:len", "C03:ambiguities", "C03:enumeration-bijection"}
 tier = sys.argv[1] if len(sys.argv) > 1 else "quick"
 r = stage_glr.get(tier, 0)
-files = {"C02-D1": [], "C03-D2": [], "C17-D1": [], "C17-D2": []}
+files = {"C01-D1": [], "C02-D1": [], "C03-D2": [], "C17-D1": [], "C17-D2": []}
 bad = []
 for c in r["cases"]:
     if c["origin"] != "det":
         continue
     diag = set(c["diag"])
     for cl in c["clauses"]:
-        if cl in D1:
+        if cl == "C01:rejects-sentence":
+            # D1 at its worst: every derivation of the sentence needs a path that visits a GSS node twice
+            ok = "loss:node-twice" in diag and "loss:other" not in diag
+            (files["C01-D1" if c["consume"] else "C17-D1"].append(witness_key(c["name"], cl)) if ok else bad.append((cl, c["name"], c["diag"])))
+        elif cl in D1:
             ok = "loss:node-twice" in diag and "loss:other" not in diag
             if c["flags"]["trees"] < 1:
                 continue
